@@ -602,6 +602,80 @@ pub fn comparator_axioms(ctx: &Ctx, tier: Tier) -> u64 {
     evals
 }
 
+
+// ------------------------------------------------------------------------------------------------ sort on full documents
+
+/// The specification-derived full document of each version (every element type with all its sub-elements, in
+/// specification order) is loaded and sorted: afterwards the children of every element must still be in the order the
+/// specification of *that version* prescribes (checked by C07's order checker, which uses the version's own index
+/// lists), nothing may be lost, and a second sort must change nothing.
+pub fn sort_full_documents(ctx: &Ctx, tier: Tier) -> u64 {
+    use crate::common::docgen::DocGen;
+    use crate::common::specgraph::VERSIONS;
+    let versions: Vec<AutosarVersion> = VERSIONS.iter().enumerate().filter(|(i, _)| tier == Tier::Thorough || i % 6 == 0 || *i == VERSIONS.len() - 1).map(|(_, v)| *v).collect();
+    let n: u64 = versions
+        .par_iter()
+        .map(|v| {
+            let mut g = DocGen::new(*v, false);
+            let doc = g.document();
+            let text = print_document(&doc, *v, &PrintOpts::default());
+            let m = AutosarModel::new();
+            if m.load_buffer(text.as_bytes(), "full.arxml", true).is_err() {
+                ctx.machinery_error(format!("sort on full documents: the generated document of {v:?} does not load"));
+                return 0;
+            }
+            let order_problems = |m: &AutosarModel| -> Vec<String> {
+                let mut out = vec![];
+                for (_, e) in walk(m) {
+                    let names: Vec<ElementName> = e.sub_elements().map(|c| c.element_name()).collect();
+                    if names.len() > 1 && !crate::props::c07::valid_children(e.element_type(), *v, &names) {
+                        out.push(format!("{} [{}]", e.xml_path(), names.iter().map(|n| n.to_str()).collect::<Vec<_>>().join(", ")));
+                    }
+                }
+                out
+            };
+            let before = order_problems(&m);
+            if !before.is_empty() {
+                ctx.machinery_error(format!("sort on full documents: the generated document of {v:?} is not in specification order at {}", before[0]));
+                return 0;
+            }
+            let count_before = walk(&m).len();
+            if let Err(msg) = guarded(|| m.sort()) {
+                ctx.violation(format!("full-document|panic|sort|{}", last_panic_loc()), json!({"kind": "sort-full", "version": format!("{v:?}"), "msg": msg}));
+                return 1;
+            }
+            let after = order_problems(&m);
+            if let Some(first) = after.first() {
+                let parent_kind = first.rsplit('/').next().unwrap_or("").split(' ').next().unwrap_or("").to_string();
+                ctx.violation(
+                    format!("full-document|children-not-in-specification-order-after-sort|{parent_kind}"),
+                    json!({"kind": "sort-full", "version": format!("{v:?}"), "parents_out_of_order": after.len(), "first": first}),
+                );
+            }
+            if walk(&m).len() != count_before {
+                ctx.violation("full-document|elements-lost-or-gained", json!({"kind": "sort-full", "version": format!("{v:?}")}));
+            }
+            let t1 = m.files().next().and_then(|f| f.serialize().ok());
+            m.sort();
+            let t2 = m.files().next().and_then(|f| f.serialize().ok());
+            if t1 != t2 {
+                ctx.violation("full-document|second-sort-changes-the-result", json!({"kind": "sort-full", "version": format!("{v:?}")}));
+            }
+            if let Some(t) = t1 {
+                let m2 = AutosarModel::new();
+                match m2.load_buffer(t.as_bytes(), "again.arxml", true) {
+                    Ok((_, w)) if w.is_empty() => {}
+                    other => ctx.violation("full-document|model-invalid-after-sort", json!({"kind": "sort-full", "version": format!("{v:?}"), "result": format!("{:?}", other.map(|(_, w)| w.len()).map_err(|e| e.to_string()))})),
+                }
+            }
+            count_before as u64
+        })
+        .sum();
+    ctx.count("full_documents_sorted", versions.len() as u64);
+    ctx.count("full_document_elements_sorted", n);
+    n
+}
+
 pub fn run(tier: Tier) -> i32 {
     let ctx = Ctx::new("C14", tier);
     let perms_run = AtomicU64::new(0);
@@ -660,7 +734,8 @@ pub fn run(tier: Tier) -> i32 {
     }
     let n = perms_run.load(Ordering::Relaxed);
     let cmp_evals = comparator_axioms(&ctx, tier);
-    ctx.eval(n + cmp_evals);
+    let full_evals = sort_full_documents(&ctx, tier);
+    ctx.eval(n + cmp_evals + full_evals);
     ctx.count("multisets", sets_run.load(Ordering::Relaxed));
     ctx.count("permutations", n);
     ctx.sample(json!({"scenario": "packages", "siblings": ["a2", "a10", "a1b"], "permutations": 6}));
